@@ -3,6 +3,7 @@
 package c04
 
 import (
+	"bytes"
 	"strings"
 	"context"
 	"encoding/binary"
@@ -27,7 +28,7 @@ var ev = kit.Ev("C04")
 func init() {
 	ev.Rule("two real endpoints (client and server Authenticator, both with encryption REQUIRED) talk through a frame-aware man-in-the-middle relay; handshake shapes: no authentication, CLAIMTOBE, TOKEN, FS, resumed session, CLAIMTOBE with encryption only OPTIONAL / PREFERRED (it still ends on); " +
 		"a baseline run records the cleartext frames per direction; mutations addressed as (direction, frame index, byte offset incl. header, substitute in {^0x01, ^0x80, 0x00, 'A'}) for EVERY offset of every cleartext frame, the end-flag byte of every frame additionally set to 9 (thorough: all 256) values and every length byte moved by +-1, " +
-		"plus an empty partial frame inserted before every frame, every frame removed, every frame split in two, adjacent partial frames merged; oracle: after the handshake calls return, every endpoint that reported success sends " +
+		"plus an empty partial frame inserted before every frame, every frame removed, every frame split in two, adjacent partial frames merged, and the same attribute of the negotiation ad rewritten (one value character, same length) in BOTH directions; oracle: after the handshake calls return, every endpoint that reported success sends " +
 		"one application message and tries to read one -- no endpoint that reported success may ACCEPT an application message in a run where the relay changed a byte; the unmodified run must succeed and exchange messages both ways; " +
 		"non-trivial = the mutation really changed bytes of a frame both endpoints got far enough to exchange; distinct by (shape, direction, frame, offset, substitute)")
 	ev.Assume("a run that blocks (both ends waiting for bytes the relay's edit removed) is ended by an idle watchdog and counted inconclusive, never a violation")
@@ -87,7 +88,47 @@ func relay(dir int, src, dst *kit.BufConn, m Mut, rs *relayStats, mu *sync.Mutex
 		rs.lens[dir] = append(rs.lens[dir], len(f))
 		mu.Unlock()
 		out := [][]byte{f}
-		if m.Dir == dir && m.Frame == idx {
+		if m.Kind == "both-attr" && idx == 0 {
+			// the same attribute of the negotiation ad rewritten in BOTH directions (first frame each way): one
+			// character of its value, same length (a digit becomes 0, a letter Z). Two edits that agree with each
+			// other are what a relay steering both ends towards a common belief would make.
+			pat := []byte(bothAttrs[m.Frame%len(bothAttrs)] + " = ")
+			p := bytes.Index(f, append([]byte{0}, pat...))
+			if p >= 0 {
+				p++
+			} else if len(f) > 13 && bytes.HasPrefix(f[13:], pat) {
+				p = 13
+			}
+			if p >= 0 {
+				v := p + len(pat)
+				if v < len(f) && f[v] == '"' {
+					v++
+				}
+				end := v
+				for end < len(f) && f[end] != 0 {
+					end++
+				}
+				if q := v + m.Off; q < end {
+					nf := append([]byte(nil), f...)
+					switch c := nf[q]; {
+					case c >= '1' && c <= '9':
+						nf[q] = '0'
+					case c == '0':
+						nf[q] = '1'
+					case c == 'Z' || c == 'z':
+						nf[q] = 'Y'
+					case (c >= 'A' && c <= 'Z') || (c >= 'a' && c <= 'z'):
+						nf[q] = 'Z'
+					}
+					if nf[q] != f[q] {
+						mu.Lock()
+						rs.changed = true
+						mu.Unlock()
+						out = [][]byte{nf}
+					}
+				}
+			}
+		} else if m.Dir == dir && m.Frame == idx {
 			switch m.Kind {
 			case "byte":
 				if m.Off < len(f) {
@@ -159,6 +200,10 @@ func relay(dir int, src, dst *kit.BufConn, m Mut, rs *relayStats, mu *sync.Mutex
 		}
 	}
 }
+
+// attributes of the negotiation ads (most occur in both directions)
+var bothAttrs = []string{"RemoteVersion", "AuthMethods", "CryptoMethods", "Authentication", "Encryption", "Integrity", "Enact", "OutgoingNegotiation",
+	"NewSession", "ECDHPublicKey", "TrustDomain", "Command", "SessionDuration", "SessionLease", "AuthMethodsList", "CryptoMethodsList", "NegotiatedSession", "AuthCommand", "ServerPid", "Subsystem"}
 
 type outcome struct {
 	cOK, sOK         bool
@@ -428,6 +473,16 @@ func TestC04Tamper(t *testing.T) {
 			}
 			// (a frame injected after the last cleartext frame lands in the protected phase of that
 			// direction only; that is C02's fault model, not a change to the negotiation)
+		}
+	}
+	for _, sh := range []string{"noauth", "claimtobe", "token", "claimtobe-optenc"} {
+		for ai := range bothAttrs {
+			for off := 0; off < 44; off++ {
+				if !kit.Thorough() && (off+ai)%2 != 0 && off != 16 && off != 17 {
+					continue
+				}
+				cases = append(cases, Case{Shape: sh, M: Mut{Kind: "both-attr", Frame: ai, Off: off}})
+			}
 		}
 	}
 	var mu sync.Mutex
